@@ -503,7 +503,7 @@ printf("debug> macros_parse() name_test='%s' %d\n", name_test, index);
     // of the line.
     if (ch == ';' || (ptr > 0 && ch == '/' && macro[ptr-1] == '/'))
     {
-      if (macro[ptr-1] == '/') { ptr--; }
+      if (ptr > 0 && macro[ptr-1] == '/') { ptr--; }
 
       while (true)
       {
@@ -633,6 +633,13 @@ char *macros_expand_params(
   {
     ch = tokens_get_char(asm_context);
 
+    // Each pass stores at most 2 chars, plus the final terminator.
+    if (ptr >= (int)sizeof(params) - 2)
+    {
+      print_error(asm_context, "Macro parameters too long");
+      return nullptr;
+    }
+
     if (ch == '\t') { ch = ' '; }
     if (ch == '\r') { continue; }
 
@@ -663,6 +670,12 @@ char *macros_expand_params(
 
     if (ch == ',' && !in_string && !in_ticks && open_parens == 0)
     {
+      if (count >= 255)
+      {
+        print_error(asm_context, "Too many macro parameters");
+        return nullptr;
+      }
+
       params[ptr++] = 0;
       params_ptr[++count] = ptr;
       continue;
@@ -694,15 +707,36 @@ for (int n = 0; n < count; n++)
 }
 #endif
 
+  if (asm_context->def_param_stack_count >= MAX_NESTED_MACROS)
+  {
+    print_error(asm_context, "Macros nested too deep");
+    return nullptr;
+  }
+
   ptr = asm_context->def_param_stack_ptr[asm_context->def_param_stack_count];
 
   while (*define != 0)
   {
+    if (ptr >= PARAM_STACK_LEN - 1)
+    {
+      print_error(asm_context, "Macro expansion too long");
+      return nullptr;
+    }
+
     if (*define == 1)
     {
       define++;
 
-      strcpy(asm_context->def_param_stack_data + ptr, params + params_ptr[((int)*define) - 1]);
+      const int index = (uint8_t)*define;
+
+      if (index < 1 || index > count ||
+          ptr + (int)strlen(params + params_ptr[index - 1]) >= PARAM_STACK_LEN)
+      {
+        print_error(asm_context, "Macro expansion too long");
+        return nullptr;
+      }
+
+      strcpy(asm_context->def_param_stack_data + ptr, params + params_ptr[index - 1]);
 
       while (*(asm_context->def_param_stack_data + ptr) != 0) { ptr++; }
     }
